@@ -32,6 +32,7 @@ def run(ctx):
     arith(ctx, fb)
     equal_strict(ctx, fb)
     scalar_rank(ctx, fb)
+    forward_offsets(ctx, fb)
     delegation(ctx, fb)
 
 
@@ -333,6 +334,86 @@ def scalar_rank(ctx, fb):
                 ok = False
         ctx.inst(R, 'scalar-only-if-all-scalar:' + label, ok, 'a scalar result is built only under an as_scalar()/all-scalar test of the inputs' if ok else
                  'a scalar (rank-0) result can be built without testing that the inputs are scalars, or no scalar path exists', f.loc())
+
+    # ---- constants entering inference: Constant::as_scalar (TensorBase::item) answers for *any* one-element tensor, so a
+    # constant becomes a rank-0 symbolic value only under an explicit `ndim() == 0` test; otherwise a [1] / [1,1]
+    # constant is given rank 0 and every shape computed from it (broadcast, Unsqueeze, Concat ...) loses dimensions
+    f = fb.fn('rten::infer_shapes::sym_tensor_from_input')
+    if ctx.anchor(R, 'sym_tensor_from_input', f is not None and f.has_mir()):
+        sc = [c for c in f.calls() if (c.callee or '').endswith('SymTensor::from_scalar')]
+        ok = bool(sc)
+        for c in sc:
+            g_ok = False
+            for (op, a, b, g) in normalized_cmps(f, c.bb):
+                if op == 'Eq' and op_int(b) == 0 and any(o[0] == 'call' and re.search(r'::ndim$', o[1] or '') for o in f.origins(a)):
+                    g_ok = True
+            if not g_ok:
+                # or the rank test lives in the helper the value comes from: all its Some(..) results are under ndim() == 0
+                for o in f.origins(c.args[0]):
+                    h = fb.fn(o[1]) if o[0] == 'call' and o[1] else None
+                    if h is None or not h.has_mir() or not h.path.startswith('rten::infer_shapes::'):
+                        continue
+                    somes = [i for i, b in enumerate(h.bbs) if not b.get('c') and i in h.live() and any(st[0] == '=' and st[2][0] == 'agg' and st[2][3] == 'Some' for st in b['s'])]
+                    if somes and all(any(op2 == 'Eq' and op_int(b2) == 0 and any(x[0] == 'call' and re.search(r'::ndim$', x[1] or '') for x in h.origins(a2)) for (op2, a2, b2, g2) in normalized_cmps(h, i)) for i in somes):
+                        g_ok = True
+            ok = ok and g_ok
+        ctx.inst(R, 'constant-scalar-only-if-rank-0', ok, 'a constant becomes a rank-0 symbolic value only under `constant.ndim() == 0`' if ok else
+                 'a constant can become a rank-0 symbolic value without an `ndim() == 0` test: as_scalar() also answers for [1] and [1,1] constants, whose rank inference would then misreport', f.loc())
+
+
+def forward_offsets(ctx, fb):
+    """SliceRange::resolve / resolve_clamped return offsets that count forwards from the first index only for a positive
+    step (for a negative step they count backwards from the last index - see the method's contract).  Shape inference that
+    picks *values* with such a range directly (`vals[range]`) therefore does so only under a positive-step test of the
+    step the range was built from; otherwise the inferred constant is the mirror-image window of what execution yields."""
+    R = 'C10.forward-offsets'
+    n = 0
+    for f in fb.fns(crate='rten_shape_inference'):
+        if not f.has_mir():
+            continue
+        for c in f.calls():
+            if not re.search(r'Index<I>>?::index$|Index<I> for \[T\]>::index$|::get$', c.callee or '') or len(c.args) < 2:
+                continue
+            r = f.resolve_copy(c.args[1])
+            if not (r[0] == 'call' and re.search(r'SliceRange::resolve(_clamped)?$', r[1].callee or '')):
+                continue
+            n += 1
+            news = [k for k in f.calls() if (k.callee or '').endswith('SliceRange::new') and f.dominates(k.bb, r[1].bb)]
+            step_og = set()
+            for k in news:
+                step_og |= f.origins(k.args[2])
+            ok = False
+            for (op, a, b, g) in normalized_cmps(f, c.bb):
+                if ((op == 'Eq' and op_int(b) == 1) or (op == 'Gt' and op_int(b) == 0) or (op == 'Ge' and op_int(b) == 1)) and (f.origins(a) & step_og):
+                    ok = True
+            ctx.inst(R, 'positive-step:' + f.path.split(' as ')[0].split('::')[-1].strip('<>'), ok and bool(news),
+                     'values are picked with the resolved range only under a positive-step test' if ok else
+                     'values are indexed directly with a resolve_clamped()/resolve() range without a positive-step test: for a negative step the offsets count from the end, so the inferred values are the mirrored window', c.loc())
+    ctx.floor(R, 'value pick by resolved slice range', n, 1)
+
+    # sibling agreement with the operator: Slice execution (rten::ops::slice::slice_ranges) always builds
+    # SliceRange::new(start, Some(end), step) and lets clamping deal with INT_MAX / INT_MIN; inference must give the
+    # range the same form, because an open end (None) differs from a clamped INT_MAX end for a negative step
+    def end_forms(h):
+        out = set()
+        for c in h.calls():
+            if (c.callee or '').endswith('SliceRange::new') and len(c.args) == 3:
+                r = h.resolve_copy(c.args[1])
+                if r[0] == 'rv' and r[1][0] == 'agg':
+                    out.add(str(r[1][3]))
+                elif r[0] == 'rv' and r[1][0] == 'use' and r[1][1][0] == 'k':
+                    out.add('None' if 'None' in str(r[1][1][1]) else 'const')
+                else:
+                    out.add('computed')
+        return out
+    ex = fb.fn('rten::ops::slice::slice_ranges')
+    inf = [x for x in fb.fns(crate='rten_shape_inference') if 'slice::Slice as' in x.path and x.path.endswith('::infer_shapes')]
+    if ctx.anchor(R, 'slice_ranges + Slice::infer_shapes', ex is not None and ex.has_mir() and len(inf) == 1):
+        fe = end_forms(ex) - {'const'}
+        fi = end_forms(inf[0])
+        ctx.inst(R, 'end-form-agrees-with-operator', bool(fi) and fi <= fe,
+                 'inference builds the slice range end as %s, the operator as %s' % (sorted(fi), sorted(fe)) if fi <= fe else
+                 'inference builds the slice range end as %s but the operator only as %s: an INT_MAX end rewritten to an open end selects down to the first element for a negative step where the operator yields nothing' % (sorted(fi), sorted(fe)), inf[0].loc())
 
 
 def delegation(ctx, fb):
